@@ -7,8 +7,8 @@ M="$1"; WT=/tmp/confirm-wt
 cd "$WT" && git checkout -q -- . && git clean -fdq jmespath/tests jmespath/src >/dev/null 2>&1
 export CARGO_TARGET_DIR=/tmp/confirm-wt/target
 run_demo() {
-  if [ -f "$M/demo.rs" ]; then cp "$M/demo.rs" "$WT/jmespath/tests/demo.rs"; (cd "$WT/jmespath" && timeout 600 cargo test --offline ${DEMO_FEATURES:-} --test demo >/tmp/confirm-demo.log 2>&1); rc=$?; rm -f "$WT/jmespath/tests/demo.rs"; return $rc
-  elif [ -f "$M/demo.sh" ]; then (cd "$WT" && WT="$WT" timeout 900 bash "$M/demo.sh" "$WT" >/tmp/confirm-demo.log 2>&1); return $?
+  if [ -f "$M/demo.sh" ]; then (cd "$WT" && WT="$WT" timeout 900 bash "$M/demo.sh" "$WT" >/tmp/confirm-demo.log 2>&1); return $?
+  elif [ -f "$M/demo.rs" ]; then cp "$M/demo.rs" "$WT/jmespath/tests/demo.rs"; (cd "$WT/jmespath" && timeout 600 cargo test --offline ${DEMO_FEATURES:-} --test demo >/tmp/confirm-demo.log 2>&1); rc=$?; rm -f "$WT/jmespath/tests/demo.rs"; return $rc
   else return 99; fi
 }
 run_demo; clean_rc=$?
